@@ -119,6 +119,65 @@ def _t(s: str) -> str:
 # Hand-written adversarial layouts of the property text.  All are assembler-valid (checked with spec.avm.parse and
 # version_problems in `adversarial()`); subroutine bodies are entered only through callsub.
 _ADVERSARIAL: List[Tuple[str, str]] = [
+    # a subroutine with two call sites, one of them the last instruction of the program (no return point there), the other with a
+    # return point that approves; nothing validates any field: every detector walks callsub -> retsub -> "return point" of both sites
+    ("callsub_last_shared_callee", """
+#pragma version 6
+txn OnCompletion
+bnz tail
+callsub f
+int 1
+return
+f:
+int 1
+pop
+retsub
+tail:
+int 1
+callsub f
+"""),
+    ("callsub_last_shared_callee_nested", """
+#pragma version 6
+txn OnCompletion
+bnz tail
+callsub g
+int 1
+return
+g:
+callsub f
+retsub
+f:
+int 1
+pop
+retsub
+tail:
+int 1
+callsub g
+"""),
+    ("callsub_last_in_loop_shared_callee", """
+#pragma version 6
+int 0
+top:
+dup
+int 2
+<
+bz out
+callsub f
+int 1
++
+b top
+out:
+pop
+int 1
+return
+f:
+txn Fee
+pop
+retsub
+tail:
+int 1
+callsub f
+"""),
     ("dead_block_two_live_successors", """
 #pragma version 4
 txn Fee
